@@ -71,9 +71,18 @@ class StandardQTomographyBasedWeightedProbabilityBasedSquaredError(
             weight_matrices=weight_matrices,
         )
 
+    def set_weight_matrices(self, weight_matrices: List[np.ndarray]) -> None:
+        """sets weight matrices and updates the extend weight matrix built from them.
+
+        see :func:`~quara.loss_function.weighted_probability_based_squared_error.WeightedProbabilityBasedSquaredError.set_weight_matrices`
+        """
+        super().set_weight_matrices(weight_matrices)
+        self._calc_extend_weight_matrix()
+
     def _calc_extend_weight_matrix(self) -> None:
-        # if weight_matrices is None, not calculate.
+        # if weight_matrices is None, there is no extend weight matrix.
         if self.weight_matrices is None:
+            self._extend_weight_matrix = None
             return
 
         # calc the extend weight matrix.
